@@ -38,6 +38,9 @@ pub enum C03Case {
         /// sort keys permuting the index records of both headers (empty = ascending tags)
         #[serde(default)]
         order: Vec<u16>,
+        /// extra items appended to the PAYLOADDIGEST array: true = the correct digest, false = a wrong one
+        #[serde(default)]
+        extra_payload_digests: Vec<bool>,
     },
     /// one bit of hand-encoded base package `base` flipped
     BitFlip { base: u8, bit: u32 },
@@ -87,11 +90,21 @@ fn permute(v: &mut Vec<(u32, Val)>, order: &[u16], salt: usize) {
 }
 
 fn construct(payload: &[u8], name: &str, md5: &Option<Dk>, sha1: &Option<Dk>, sha256: &Option<Dk>, pd: &Option<(Dk, u32)>, order: &[u16]) -> Vec<u8> {
+    construct_multi(payload, name, md5, sha1, sha256, pd, order, &[])
+}
+
+#[allow(clippy::too_many_arguments)]
+fn construct_multi(payload: &[u8], name: &str, md5: &Option<Dk>, sha1: &Option<Dk>, sha256: &Option<Dk>, pd: &Option<(Dk, u32)>, order: &[u16], extra: &[bool]) -> Vec<u8> {
     let mut main = filepkg::basic_entries(name);
     if let Some((k, algo)) = pd {
         let correct = digests::sha256_hex(&[payload]);
         let other = digests::sha256_hex(&[b"not the payload", payload]);
-        main.push((tags::PAYLOADDIGEST, Val::sa(&[&mangle_hex(correct, other, k)])));
+        let mut items = vec![mangle_hex(correct.clone(), other.clone(), k)];
+        for e in extra {
+            items.push(if *e { correct.clone() } else { other.clone() });
+        }
+        let refs: Vec<&str> = items.iter().map(|s| s.as_str()).collect();
+        main.push((tags::PAYLOADDIGEST, Val::sa(&refs)));
         main.push((tags::PAYLOADDIGESTALGO, Val::Int32(vec![*algo])));
     }
     main.sort_by_key(|e| e.0);
@@ -168,11 +181,19 @@ pub fn expectation(bytes: &[u8]) -> Expect {
             let dv = fmt::decode_entry(seg.hdr.store(bytes), d);
             let av = fmt::decode_entry(seg.hdr.store(bytes), a);
             match (dv, av) {
-                (Some(Val::StrArray(items)), Some(Val::Int32(algo))) if items.len() == 1 && algo.len() == 1 => {
+                (Some(Val::StrArray(items)), Some(Val::Int32(algo))) if !items.is_empty() && algo.len() == 1 => {
                     if algo[0] != 8 {
                         bad_algo = true;
                     } else {
-                        mismatch |= items[0].0 != digests::sha256_hex(&[payload]).as_bytes();
+                        let want = digests::sha256_hex(&[payload]);
+                        let first_ok = items[0].0 == want.as_bytes();
+                        let rest_ok = items[1..].iter().all(|i| i.0 == want.as_bytes());
+                        if first_ok && !rest_ok {
+                            // "the recorded digest" (first item) matches, a further item does not:
+                            // whether that is a mismatch is not settled by the statement
+                            return Expect::Skip("later PAYLOADDIGEST item differs");
+                        }
+                        mismatch |= !first_ok;
                     }
                 }
                 _ => return Expect::Skip("payload digest of unexpected type/count"),
@@ -214,7 +235,7 @@ impl Property for C03 {
         ]
     }
     fn required_labels(&self, _t: Tier) -> Vec<&'static str> {
-        vec!["permuted-index", "expect-ok", "expect-mismatch", "expect-anyerr", "only-md5-wrong", "only-sha1-wrong", "only-sha256-wrong", "only-payload-wrong", "algo-known-unsupported", "algo-unknown", "bitflip"]
+        vec!["multi-item-payload-digest", "permuted-index", "expect-ok", "expect-mismatch", "expect-anyerr", "only-md5-wrong", "only-sha1-wrong", "only-sha256-wrong", "only-payload-wrong", "algo-known-unsupported", "algo-unknown", "bitflip"]
     }
     fn phases(&self, tier: Tier) -> Vec<Phase<C03Case>> {
         let bits: Vec<(u8, u32)> = self.flip_bases.iter().enumerate().flat_map(|(i, b)| (0..b.len() as u32 * 8).map(move |bit| (i as u8, bit))).collect();
@@ -227,8 +248,8 @@ impl Property for C03 {
                 cases: tier.pick(40_000, 800_000),
                 strat: Arc::new(|| {
                     let algo = prop_oneof![6 => Just(8u32), 2 => proptest::sample::select(vec![1u32, 9, 10, 11, 12, 14]), 2 => proptest::sample::select(vec![0u32, 2, 3, 7, 13, 255, u32::MAX]), 1 => any::<u32>()];
-                    (proptest::collection::vec(any::<u8>(), 0..40), "[a-z]{1,8}", proptest::option::weighted(0.6, dk()), proptest::option::weighted(0.6, dk()), proptest::option::weighted(0.7, dk()), proptest::option::weighted(0.6, (dk(), algo)), prop_oneof![2 => Just(vec![]), 1 => proptest::collection::vec(any::<u16>(), 12)])
-                        .prop_map(|(payload, name, md5, sha1, sha256, payload_digest, order)| C03Case::Constructed { payload, name, md5, sha1, sha256, payload_digest, order })
+                    (proptest::collection::vec(any::<u8>(), 0..40), "[a-z]{1,8}", proptest::option::weighted(0.6, dk()), proptest::option::weighted(0.6, dk()), proptest::option::weighted(0.7, dk()), proptest::option::weighted(0.6, (dk(), algo)), prop_oneof![2 => Just(vec![]), 1 => proptest::collection::vec(any::<u16>(), 12)], prop_oneof![4 => Just(vec![]), 1 => proptest::collection::vec(any::<bool>(), 1..3)])
+                        .prop_map(|(payload, name, md5, sha1, sha256, payload_digest, order, extra_payload_digests)| C03Case::Constructed { payload, name, md5, sha1, sha256, payload_digest, order, extra_payload_digests })
                         .boxed()
                 }),
             },
@@ -237,7 +258,10 @@ impl Property for C03 {
     fn check(&self, case: &C03Case) -> Outcome {
         let mut o = Outcome::new();
         let bytes = match case {
-            C03Case::Constructed { payload, name, md5, sha1, sha256, payload_digest, order } => {
+            C03Case::Constructed { payload, name, md5, sha1, sha256, payload_digest, order, extra_payload_digests } => {
+                if !extra_payload_digests.is_empty() && payload_digest.is_some() {
+                    o.label("multi-item-payload-digest");
+                }
                 if !order.is_empty() {
                     o.label("permuted-index");
                 }
@@ -255,7 +279,7 @@ impl Property for C03 {
                         o.label("algo-unknown");
                     }
                 }
-                construct(payload, name, md5, sha1, sha256, payload_digest, order)
+                construct_multi(payload, name, md5, sha1, sha256, payload_digest, order, extra_payload_digests)
             }
             C03Case::BitFlip { base, bit } => {
                 o.label("bitflip");
